@@ -2,7 +2,7 @@
    Statements: `Check <name>`.  Not in any property's MAKE_TARGETS (it imports several Props files); built by `make setup`. *)
 From Coq Require Import ZArith.
 Require Import Bits.Lib.Result Bits.Lib.Bytes Bits.Model.Ecmath Bits.Proofs.Ecmath Bits.Proofs.Ecdsa Bits.Spec.Secp256k1.
-Require Import Bits.GL.Secp256k1Primes Bits.GL.SqrtFacts.
+Require Import Bits.GL.Secp256k1Primes Bits.GL.SqrtFacts Bits.GL.Secp256k1Count.
 Require Bits.Props.C01 Bits.Props.C02 Bits.Props.C03 Bits.Props.C08 Bits.Props.C12 Bits.Props.C14 Bits.Props.C16.
 Local Open Scope Z_scope.
 
@@ -41,7 +41,16 @@ Definition C16_sign_inputs_valid_secp256k1 :=
   fun sha256 ripemd160 scriptpubkey is_address =>
     C16.C16_sign_inputs_valid _ _ _ _ _ sha256 ripemd160 scriptpubkey is_address CF.
 
+(* the theorems that needed "the curve has exactly n points" (GL/Secp256k1Count.v) *)
+Notation CX := secp256k1_curve_facts_x_closed.
+Definition C01_r_collision_needs_repeat_secp256k1 := C01.C01_r_collision_needs_repeat _ _ _ _ _ CF CX.
+Definition C02_malleated_s_secp256k1 := C02.C02_malleated_s _ _ _ _ _ CF CX.
+Definition C12_verify_iff_spec_secp256k1 :=
+  fun sha256 pk m sig => C12.C12_verify_iff_spec _ _ _ sha256 CF secp256k1_p_le pk m sig secp256k1_cofactor_one.
+
 Check C01_sign_sound_secp256k1.
+Check C02_malleated_s_secp256k1.
+Check C12_verify_iff_spec_secp256k1.
 Check C16_send_unlocks_secp256k1.
 Check C02_verify_iff_secp256k1.
 Check C03_scalar_mul_spec_secp256k1.
@@ -51,3 +60,6 @@ Print Assumptions C02_verify_iff_secp256k1.
 Print Assumptions C03_scalar_mul_spec_secp256k1.
 Print Assumptions C14_sec1_accept_iff_secp256k1.
 Print Assumptions C16_send_unlocks_secp256k1.
+Print Assumptions C01_r_collision_needs_repeat_secp256k1.
+Print Assumptions C02_malleated_s_secp256k1.
+Print Assumptions C12_verify_iff_spec_secp256k1.
